@@ -11,7 +11,7 @@ U32 = 2**32
 U64 = 2**64
 
 
-@spec
+@spec(opaque=True, sig=[Int], ret=Bytes)
 def compact_size(n):
     """CompactSize encoding of 0 <= n < 2^64"""
     if n < 0xfd:
@@ -23,7 +23,7 @@ def compact_size(n):
     return b'\xff' + le_bytes(n, 8)
 
 
-@spec
+@spec(opaque=True, sig=[Bytes], ret=Bytes)
 def var_bytes(b):
     return compact_size(len(b)) + b
 
@@ -51,12 +51,12 @@ def enc_outpoint(o):
     return o.hash + le_bytes(o.n, 4)
 
 
-@spec
+@spec(opaque=True, sig=[Obj(CTxIn)], ret=Bytes)
 def enc_txin(i):
     return enc_outpoint(i.prevout) + var_bytes(i.scriptSig) + le_bytes(i.nSequence, 4)
 
 
-@spec
+@spec(opaque=True, sig=[Obj(CTxOut)], ret=Bytes)
 def enc_txout(o):
     return le_bytes(o.nValue % U64, 8) + var_bytes(o.scriptPubKey)
 
@@ -84,7 +84,7 @@ def enc_items(xs):
     return enc_items(xs[:-1]) + var_bytes(xs[-1])
 
 
-@spec
+@spec(opaque=True, sig=[Obj(CScriptWitness)], ret=Bytes)
 def enc_wstack(w):
     """one input's witness stack: item count then items"""
     return compact_size(len(w.stack)) + enc_items(w.stack)
@@ -189,3 +189,141 @@ def enc_block(b, w):
 @spec
 def valid_block(b):
     return valid_header(b) and len(b.vtx) < U64 and valid_txs(b.vtx)
+
+
+# ---- field-wise equality of decoded objects with the encoded value ---------------
+@spec
+def eq_outpoint(a, b):
+    return a.hash == b.hash and a.n == b.n
+
+
+@spec
+def eq_txin(a, b):
+    return eq_outpoint(a.prevout, b.prevout) and a.scriptSig == b.scriptSig and a.nSequence == b.nSequence
+
+
+@spec
+def eq_txout(a, b):
+    return a.nValue == b.nValue and a.scriptPubKey == b.scriptPubKey
+
+
+@spec
+def eq_header(a, b):
+    return (a.nVersion == b.nVersion and a.hashPrevBlock == b.hashPrevBlock
+            and a.hashMerkleRoot == b.hashMerkleRoot and a.nTime == b.nTime and a.nBits == b.nBits
+            and a.nNonce == b.nNonce)
+
+
+@spec
+def strict_prefix(p, s):
+    """p is a strict prefix of s"""
+    return len(p) < len(s) and p == s[:len(p)]
+
+
+# ---- suffix forms of the vector encoders (used by the decoders' loop invariants) ----
+@spec(recursive=True, sig=[TupleOf(Obj(CTxIn)), Int], ret=Bytes)
+def enc_txins_from(xs, k):
+    """encodings of xs[k:] concatenated"""
+    if k >= len(xs):
+        return b''
+    return enc_txin(xs[k]) + enc_txins_from(xs, k + 1)
+
+
+@spec(recursive=True, sig=[TupleOf(Obj(CTxOut)), Int], ret=Bytes)
+def enc_txouts_from(xs, k):
+    if k >= len(xs):
+        return b''
+    return enc_txout(xs[k]) + enc_txouts_from(xs, k + 1)
+
+
+@spec(recursive=True, sig=[TupleOf(Bytes), Int], ret=Bytes)
+def enc_items_from(xs, k):
+    if k >= len(xs):
+        return b''
+    return var_bytes(xs[k]) + enc_items_from(xs, k + 1)
+
+
+@spec(recursive=True, sig=[TupleOf(Obj(CTxInWitness)), Int], ret=Bytes)
+def enc_wits_from(xs, k):
+    if k >= len(xs):
+        return b''
+    return enc_wstack(xs[k].scriptWitness) + enc_wits_from(xs, k + 1)
+
+
+MAX_SIZE = 0x02000000
+
+
+@spec
+def dec_txin(i):
+    """decodable: every length field within the deserialiser's MAX_SIZE guard"""
+    return valid_txin(i) and len(i.scriptSig) <= MAX_SIZE
+
+
+@spec
+def dec_txout(o):
+    return valid_txout(o) and len(o.scriptPubKey) <= MAX_SIZE
+
+
+@spec(opaque=True, sig=[TupleOf(Obj(CTxIn))], ret=Bool)
+def dec_txins(xs):
+    return forall(range(0, len(xs)), lambda k: dec_txin(xs[k]))
+
+
+@spec(opaque=True, sig=[TupleOf(Obj(CTxOut))], ret=Bool)
+def dec_txouts(xs):
+    return forall(range(0, len(xs)), lambda k: dec_txout(xs[k]))
+
+
+@spec(opaque=True, sig=[TupleOf(Obj(CTxIn)), TupleOf(Obj(CTxIn))], ret=Bool)
+def eq_txins(a, b):
+    return len(a) == len(b) and forall(range(0, len(a)), lambda k: eq_txin(a[k], b[k]))
+
+
+@spec(opaque=True, sig=[TupleOf(Obj(CTxOut)), TupleOf(Obj(CTxOut))], ret=Bool)
+def eq_txouts(a, b):
+    return len(a) == len(b) and forall(range(0, len(a)), lambda k: eq_txout(a[k], b[k]))
+
+
+@spec(opaque=True, sig=[TupleOf(Bytes)], ret=Bool)
+def dec_items(xs):
+    return forall(range(0, len(xs)), lambda k: len(xs[k]) <= MAX_SIZE)
+
+
+@spec
+def dec_wstack(w):
+    return len(w.stack) < U64 and dec_items(w.stack)
+
+
+@spec(opaque=True, sig=[TupleOf(Obj(CTxInWitness))], ret=Bool)
+def dec_wits(ws):
+    return forall(range(0, len(ws)), lambda k: dec_wstack(ws[k].scriptWitness))
+
+
+@spec(opaque=True, sig=[TupleOf(Bytes), TupleOf(Bytes)], ret=Bool)
+def eq_items(a, b):
+    return len(a) == len(b) and forall(range(0, len(a)), lambda k: a[k] == b[k])
+
+
+@spec(opaque=True, sig=[TupleOf(Obj(CTxInWitness)), TupleOf(Obj(CTxInWitness))], ret=Bool)
+def eq_wits(a, b):
+    return len(a) == len(b) and forall(range(0, len(a)),
+                                       lambda k: eq_items(a[k].scriptWitness.stack, b[k].scriptWitness.stack))
+
+
+@spec
+def dec_tx(tx):
+    """decodable transaction: wire ranges, at least one input, one witness stack per input or none"""
+    return (-2**31 <= tx.nVersion and tx.nVersion < 2**31 and 0 <= tx.nLockTime and tx.nLockTime < U32
+            and 1 <= len(tx.vin) and len(tx.vin) < U64 and len(tx.vout) < U64
+            and dec_txins(tx.vin) and dec_txouts(tx.vout) and dec_wits(tx.wit.vtxinwit)
+            and (len(tx.wit.vtxinwit) == 0 or len(tx.wit.vtxinwit) == len(tx.vin)))
+
+
+@spec
+def eq_tx(a, b):
+    """a (decoded) carries the field values of b; a witness without any non-empty stack
+    decodes to an empty witness object"""
+    return (a.nVersion == b.nVersion and a.nLockTime == b.nLockTime and eq_txins(a.vin, b.vin)
+            and eq_txouts(a.vout, b.vout)
+            and ((has_wit(b) and eq_wits(a.wit.vtxinwit, b.wit.vtxinwit))
+                 or ((not has_wit(b)) and len(a.wit.vtxinwit) == 0)))
